@@ -124,7 +124,8 @@ def match_known(prop, v, known):
     for k in known.get("findings", []):
         if k.get("property") != prop:
             continue
-        if k.get("sig") != v.get("sig"):
+        sigs = k.get("sigs") or [k.get("sig")]
+        if v.get("sig") not in sigs:
             continue
         req = set(k.get("requires", []))
         if req and not req.issubset(set(v.get("features", []))):
@@ -182,9 +183,18 @@ def execute(mod, tier, seed, only_builds=None):
     live = len(workers)
     sent_stop = False
 
+    def alive_builds():
+        return [b for b in builds if any(wk["build"] == b and not wk["done"] for wk in workers)]
+
     def pump():
         nonlocal exhausted, sent_stop
         while True:
+            # a build whose workers are all gone (fatal import error, killed) must not block the other
+            live_b = alive_builds()
+            for b in builds:
+                if b not in live_b:
+                    queued[b] = []
+                    pending[b].clear()
             # flush backlog first
             progress = False
             for b in builds:
@@ -211,7 +221,7 @@ def execute(mod, tier, seed, only_builds=None):
                 exhausted = True
                 continue
             jobs_by_id[jid] = job
-            for b in builds:
+            for b in alive_builds():
                 queued[b].append((jid, job))
                 pending[b].add(jid)
 
@@ -276,6 +286,12 @@ def execute(mod, tier, seed, only_builds=None):
         wk["p"].join(timeout=5)
         if wk["p"].is_alive():
             wk["p"].kill()
+    for q in list(jobqs.values()) + [resq]:
+        try:
+            q.cancel_join_thread()
+            q.close()
+        except Exception:
+            pass
     return acc, info
 
 
